@@ -175,14 +175,16 @@ def frs(xs):
 
 
 def quad_exact(P, q, r, x, n):
-    """1/2 x.P.x + q.x + r, its gradient P x + q, and the sum of the absolute values of the terms"""
+    """1/2 x.P.x + q.x + r, its gradient 1/2 (P + P') x + q (the derivative of the value for ANY square P, symmetric or not),
+    and the sums of the absolute values of the terms"""
     P = frs(P); q = frs(q); r = Fr(r)
     Px = [sum(P[i * n + j] * x[j] for j in range(n)) for i in range(n)]
     v = Fr(1, 2) * sum(x[i] * Px[i] for i in range(n)) + sum(q[i] * x[i] for i in range(n)) + r
     a = Fr(1, 2) * sum(abs(x[i] * P[i * n + j] * x[j]) for i in range(n) for j in range(n)) + \
         sum(abs(q[i] * x[i]) for i in range(n)) + abs(r)
-    g = [Px[i] + q[i] for i in range(n)]
-    ga = [sum(abs(P[i * n + j] * x[j]) for j in range(n)) + abs(q[i]) for i in range(n)]
+    PTx = [sum(P[j * n + i] * x[j] for j in range(n)) for i in range(n)]
+    g = [Fr(1, 2) * (Px[i] + PTx[i]) + q[i] for i in range(n)]
+    ga = [Fr(1, 2) * sum(abs(P[i * n + j] * x[j]) + abs(P[j * n + i] * x[j]) for j in range(n)) + abs(q[i]) for i in range(n)]
     return v, g, a, ga
 
 
@@ -260,6 +262,17 @@ class G:
                     P[i][j] = P[j][i] = self.coef(s)
         return [P[i][j] for i in range(n) for j in range(n)]
 
+    def nonsym(self, n, s=2.0, psd=False):
+        """a square matrix with the symmetric part of `sym` plus a random skew-symmetric part (quadratic_t accepts any square P:
+        value and convexity only depend on the symmetric part, the gradient must be that of the symmetric part)"""
+        P = self.sym(n, s, psd)
+        for i in range(n):
+            for j in range(i + 1, n):
+                k = self.coef(s)
+                P[i * n + j] += k
+                P[j * n + i] -= k
+        return P
+
 
 def evalf(c, x, n):
     """float evaluation used by the generator only (to place boundaries / choose feasible shifts)"""
@@ -306,7 +319,8 @@ def gen_constraint(g, n, x, mode, kinds=KINDS):
             if mode == "feasible" and k == "linin" and rng.chance(0.6):
                 c["r"] = float(-v) - 1.25
     elif k in ("quadeq", "quadin"):
-        c.update(rows=n, cols=n, P=g.sym(n, 1.0, psd=(k == "quadin" and rng.chance(0.5))), q=[g.coef() for _ in range(n)],
+        psd = (k == "quadin" and rng.chance(0.5))
+        c.update(rows=n, cols=n, P=(g.nonsym(n, 1.0, psd) if rng.chance(0.5) else g.sym(n, 1.0, psd)), q=[g.coef() for _ in range(n)],
                  r=g.coef(4.0))
         if mode in ("boundary", "feasible"):
             v = evalf(dict(kind=k, rows=n, cols=n, P=c["P"], q=c["q"], r=0.0), x, n)
@@ -450,7 +464,7 @@ def gen_al(rng, tier):
             for _ in range(rng.range(1, 3)):
                 c = gen_constraint(g, n, xs, "feasible", kinds=["const", "lineq", "linin", "quadin", "quadin"])
                 if c["kind"] == "quadin":
-                    c["P"] = g.sym(n, 1.0, psd=True)
+                    c["P"] = g.nonsym(n, 1.0, psd=True) if rng.chance(0.5) else g.sym(n, 1.0, psd=True)
                     c["r"] = float(-evalf(dict(kind="quadin", rows=n, cols=n, P=c["P"], q=c["q"], r=0.0), xs, n)) - abs(g.coef(2.0))
                 cons.append(c)
         if rng.chance(0.05):
